@@ -12,9 +12,11 @@ def _hs():
         what = {"step": "inductive step of the rotation state machine (should_rollover, advance_date twice, should_rollover "
                         "again) vs period oracle; ",
                 "back": "backwards step (now < prev) never rotates; ",
-                "first": "first deadline / rounding vs period oracle; "}[mode]
+                "first": "first deadline / rounding vs period oracle; ",
+                "wide": "inductive step over a wide window; "}[mode]
         hs.append(H("gen_c16::" + name, tier=tier, desc=what + desc,
-                    sym="now = base + d, prev = base + d' (|d|,|d'| <= 2 periods), nanoseconds of now"))
+                    sym="now anywhere in the stated range, prev within 4 periods of it, nanoseconds of now" if mode == "wide"
+                    else "now = base + d, prev = base + d' (|d|,|d'| <= 2 periods), nanoseconds of now"))
     hs.append(H("c16::c16_never", desc="Rotation::NEVER: deadline 0, never rotates, next_date is None",
                 sym="instant within +-2 days of 2024-02-29, nanoseconds"))
     hs.append(H("c16::c16_reach", kind="reach", desc="vacuity twin"))
@@ -48,7 +50,9 @@ SPEC = {
     "bounds": "rotation kinds MINUTELY / HOURLY / DAILY / NEVER; %d base instants (%d in the quick tier) hitting: the epoch, "
               "minute / hour / day edges, month ends of 28 / 29 / 30 / 31 days, year ends (incl. day 366), leap days of the 4-, "
               "100- and 400-year rules (1972, 2000, 2024, 2100, 2200, 2300, 2400, 9996), 2^31 s, 2^32 s, year 3000, 9999-01-01 and "
-              "the last periods before 9999-12-31T23:59:59Z; windows of +-2 periods around each; instants at or after "
+              "the last periods before 9999-12-31T23:59:59Z; windows of +-2 periods around each; thorough tier additionally whole "
+              "years for DAILY (1970, 2000, 2024, 2100, 9998) and HOURLY (2024, 2100) and 30-day ranges for MINUTELY (across "
+              "Feb 29 2024, Feb 28 2100, the 1999/2000 year end); instants at or after "
               "1970-01-01T00:00:00Z and at least one period before the last representable instant" % (
                   len(gen_c16.BASES), sum(1 for b in gen_c16.BASES if b[2] == "quick")),
     "outside": "file creation, directory scan and deletion (create_writer, refresh_writer, prune_old_logs: the pruning clause "
